@@ -55,13 +55,14 @@ def compile_time_segments(stdout, n):
 
 
 class Runner:
-    def __init__(self, b, wd):
+    def __init__(self, b, wd, render=None):
         self.b, self.wd, self.n = b, wd, 0
         self.programs = 0
+        self.render = render
 
     def run(self, cases):
         """-> (compile-time segments, native segments, info) ; None segments when the side is unavailable for the whole batch"""
-        src = program(cases)
+        src = (self.render or program)(cases)
         h = hashlib.md5(src.encode()).hexdigest()[:12]
         d = os.path.join(self.wd, h); os.makedirs(d, exist_ok=True)
         sp = os.path.join(d, 's.nano'); open(sp, 'w').write(src)
@@ -242,3 +243,287 @@ def replay_case(ck, b, d):
     bad = ct is None or nt is None or ct != nt
     print('REPRODUCED' if bad else 'not reproduced')
     return 1 if bad else 0
+
+
+# ------------------------------------------------------------------------------------------ histories on stateful containers
+# A history is a short sequence of operations on ONE container, written as the body of a function; the function is called from its
+# shadow block (compile time: the evaluator's own container, src/eval/eval_hashmap.c, src/eval.c) and from main of the same program
+# (run time: the container the transpiler emits / the C runtime).  Every observation is one printed line; the two texts are compared
+# line by line and the first differing line is reported with the operation that printed it.
+M64 = 2 ** 64 - 1
+
+
+def hm_hash_int(x):
+    """nl_hm_hash_int (evaluator) = nl_hashmap_hash_int (emitted code, src/transpiler.c): the 64-bit murmur finaliser"""
+    z = x & M64
+    z ^= z >> 33
+    z = (z * 0xff51afd7ed558ccd) & M64
+    z ^= z >> 33
+    z = (z * 0xc4ceb9fe1a85ec53) & M64
+    z ^= z >> 33
+    return z
+
+
+def hm_hash_str(b):
+    """nl_hm_hash_string: FNV-1a"""
+    h = 1469598103934665603
+    for ch in b:
+        h ^= ch
+        h = (h * 1099511628211) & M64
+    return h
+
+
+HM_CAPACITY = 16          # nl_hm_alloc: capacity < 16 -> 16; the emitted map starts at 16 as well
+
+
+def colliding(kind, slot_pick):
+    """(chain of 4 keys that land on one slot of the initial 16-slot table, two keys on other slots).  slot_pick: 'first' = the
+    lowest slot that has a chain, 'wrap' = slot 15 (the probe sequence wraps around the end of the table)"""
+    if kind == 'int':
+        cand = list(range(0, 400))
+        slot = lambda k: hm_hash_int(k) & (HM_CAPACITY - 1)
+    else:
+        cand = [b'k%d' % i for i in range(0, 400)]
+        slot = lambda k: hm_hash_str(k) & (HM_CAPACITY - 1)
+    by = collections.defaultdict(list)
+    for k in cand:
+        by[slot(k)].append(k)
+    s = HM_CAPACITY - 1 if slot_pick == 'wrap' else min(x for x in by if len(by[x]) >= 4)
+    chain = by[s][:4]
+    others = [k for k in cand if slot(k) not in (s, (s + 1) % 16, (s + 2) % 16, (s + 3) % 16, (s + 4) % 16)][:2]
+    return chain, others
+
+
+class Hist:
+    """duck-typed like c01_builtins.Case for program() / sweep()"""
+    def __init__(self, key, label, lines):
+        self.key, self.label, self.mode = key, label, 'history'
+        self.needs, self.tops, self.exp = (), (), None
+        self.body = [src for (src, _) in lines]
+        # operation that produced the k-th printed line
+        self.ops = [what for (src, what) in lines if what is not None]
+        self.info = dict(expr=key, ops=None)
+
+
+class MapH:
+    def __init__(self, kt, vt):
+        self.kt, self.vt, self.lines, self.n = kt, vt, [], 0
+        ty = dict(int='int', str='string')
+        self.lines.append(('let m: HashMap<%s, %s> = (map_new)' % (ty[kt], ty[vt]), None))
+    def k(self, key):
+        return str(key) if self.kt == 'int' else CB.lit_str(key)
+    def v(self, val):
+        return str(val) if self.vt == 'int' else CB.lit_str(b'v%d' % val)
+    def put(self, key, val):
+        self.lines.append(('(map_put m %s %s)' % (self.k(key), self.v(val)), None))
+    def get(self, key):
+        self.lines.append(('(println (map_get m %s))' % self.k(key), 'map_get %s' % self.k(key)))
+    def has(self, key):
+        self.lines.append(('(println (map_has m %s))' % self.k(key), 'map_has %s' % self.k(key)))
+    def remove(self, key):
+        self.lines.append(('(map_remove m %s)' % self.k(key), None))
+    def size(self):
+        self.lines.append(('(println (map_size m))', 'map_size'))
+    def clear(self):
+        self.lines.append(('(map_clear m)', None))
+    def keys(self):
+        self.n += 1
+        if self.kt == 'int':
+            self.lines.append(('let ks%d: array<int> = (map_keys m)' % self.n, None))
+            self.lines.append(('(println (sumi ks%d))' % self.n, 'sum of map_keys'))
+        else:
+            self.lines.append(('let ks%d: array<string> = (map_keys m)' % self.n, None))
+            self.lines.append(('(println (array_length ks%d))' % self.n, 'length of map_keys'))
+    def values(self):
+        self.n += 1
+        if self.vt == 'int':
+            self.lines.append(('let vs%d: array<int> = (map_values m)' % self.n, None))
+            self.lines.append(('(println (sumi vs%d))' % self.n, 'sum of map_values'))
+        else:
+            self.lines.append(('let vs%d: array<string> = (map_values m)' % self.n, None))
+            self.lines.append(('(println (array_length vs%d))' % self.n, 'length of map_values'))
+    def probe_all(self, keys):
+        for key in keys:
+            self.has(key); self.get(key)
+        self.size()
+
+
+SUMI = ('fn sumi(a: array<int>) -> int {\n    let mut s: int = 0\n    for i in (range 0 (array_length a)) {\n        set s (+ s (at a i))\n    }\n    return s\n}\n'
+        'shadow sumi { assert (== (sumi [1, 2]) 3) }\n')
+MAP_TYPES = [('int', 'int'), ('str', 'int'), ('int', 'str')]
+
+
+def deterministic_histories():
+    out = []
+    for kt, vt in MAP_TYPES:
+        tname = 'HashMap<%s,%s>' % (kt, vt)
+        for pick in ('first', 'wrap'):
+            chain, others = colliding(kt, pick)
+            for vi, vname in ((0, 'first'), (1, 'middle'), (3, 'last')):
+                h = MapH(kt, vt)
+                for j, key in enumerate(chain + others):
+                    h.put(key, 10 + j)
+                h.probe_all(chain + others)
+                victim = chain[vi]
+                h.remove(victim)
+                rest = [x for x in chain + others if x != victim]
+                h.has(victim); h.get(victim)
+                h.probe_all(rest)                       # keys further along the probe chain must still be found
+                for j, key in enumerate(rest):
+                    h.put(key, 100 + j)                 # re-insertion of a present key: no duplicate
+                h.probe_all(rest)
+                h.keys(); h.values()
+                h.put(victim, 77)                       # the tombstone is reused
+                h.probe_all(chain + others)
+                for key in chain:
+                    h.remove(key)
+                h.probe_all(chain + others)
+                h.keys(); h.values()
+                out.append(Hist('c03:history:%s:chain-%s:remove-%s' % (tname, pick, vname), 'history:' + tname, h.lines))
+        # growth across the load-factor boundary, with removals before and after, then clear and reuse
+        chain, others = colliding(kt, 'first')
+        allk = chain + others + ([k for k in range(1000, 1040)] if kt == 'int' else [b'g%d' % i for i in range(40)])
+        h = MapH(kt, vt)
+        for j, key in enumerate(allk[:10]):
+            h.put(key, j)
+        h.remove(chain[0]); h.remove(chain[2])
+        for j, key in enumerate(allk[10:]):
+            h.put(key, 50 + j)
+            if j % 8 == 0:
+                h.size(); h.has(chain[1]); h.get(chain[3])
+        h.probe_all(chain + others)
+        h.keys(); h.values()
+        for key in allk[::3]:
+            h.remove(key)
+        h.probe_all(allk[:12])
+        h.keys(); h.values()
+        h.clear(); h.size(); h.has(chain[1])
+        for j, key in enumerate(chain):
+            h.put(key, 900 + j)
+        h.probe_all(chain)
+        out.append(Hist('c03:history:%s:growth-and-clear' % tname, 'history:' + tname, h.lines))
+        # tombstone churn: the same colliding keys inserted and removed over and over
+        h = MapH(kt, vt)
+        for rnd in range(12):
+            for j, key in enumerate(chain):
+                h.put(key, rnd * 10 + j)
+            h.remove(chain[rnd % 4]); h.remove(chain[(rnd + 2) % 4])
+            h.probe_all(chain)
+        h.keys(); h.values()
+        out.append(Hist('c03:history:%s:tombstone-churn' % tname, 'history:' + tname, h.lines))
+    out += array_histories() + list_histories()
+    return out
+
+
+def array_histories():
+    out = []
+    L = []
+    L.append(('let mut a: array<int> = []', None))
+    for v in (5, -6, 7, 8, 9007199254740993):
+        L.append(('set a (array_push a %d)' % v, None))
+        L.append(('(println a)', 'array after array_push %d' % v))
+    L.append(('let p1: int = (array_pop a)', None)); L.append(('(println p1)', 'array_pop')); L.append(('(println a)', 'array after array_pop'))
+    L.append(('set a (array_remove_at a 1)', None)); L.append(('(println a)', 'array after array_remove_at 1'))
+    L.append(('set a (array_remove_at a 0)', None)); L.append(('(println a)', 'array after array_remove_at 0'))
+    L.append(('set a (array_push a 11)', None)); L.append(('(println (array_length a))', 'array_length')); L.append(('(println (at a 2))', 'at 2'))
+    for _ in range(3):
+        L.append(('let q%d: int = (array_pop a)' % _, None)); L.append(('(println q%d)' % _, 'array_pop'))
+    L.append(('(println (array_length a))', 'array_length of the emptied array')); L.append(('(println a)', 'emptied array'))
+    out.append(Hist('c03:history:array<int>:push-pop-remove_at', 'history:array<int>', L))
+    L = [('let mut b: array<int> = [1, 2, 3]', None), ('(array_set b 1 20)', None), ('(println b)', 'literal array after array_set 1 20'),
+         ('(array_set b 0 -1)', None), ('(array_set b 2 9223372036854775807)', None), ('(println b)', 'literal array after two more array_set'),
+         ('(println (at b 2))', 'at 2')]
+    out.append(Hist('c03:history:array<int>:array_set-on-a-literal', 'history:array<int>', L))
+    return out
+
+
+def list_histories():
+    L = [('let l: List<int> = (list_int_new)', None)]
+    for v in (5, 6, 7, -8):
+        L.append(('(list_int_push l %d)' % v, None))
+        L.append(('(println (list_int_length l))', 'list_int_length after push %d' % v))
+    L += [('(println (list_int_get l 1))', 'list_int_get 1'), ('(list_int_set l 1 60)', None), ('(println (list_int_get l 1))', 'list_int_get 1 after set'),
+          ('(println (list_int_pop l))', 'list_int_pop'), ('(list_int_insert l 0 9)', None), ('(println (list_int_get l 0))', 'list_int_get 0 after insert'),
+          ('(println (list_int_get l 1))', 'list_int_get 1 after insert'), ('(list_int_remove l 1)', None), ('(println (list_int_length l))', 'list_int_length after remove'),
+          ('(println (list_int_get l 1))', 'list_int_get 1 after remove'), ('(println (list_int_is_empty l))', 'list_int_is_empty'),
+          ('(list_int_clear l)', None), ('(println (list_int_length l))', 'list_int_length after clear'), ('(println (list_int_is_empty l))', 'list_int_is_empty after clear'),
+          ('(list_int_push l 1)', None), ('(println (list_int_get l 0))', 'list_int_get 0 after clear + push')]
+    return [Hist('c03:history:List<int>:push-set-pop-insert-remove-clear', 'history:List<int>', L)]
+
+
+def random_histories(rng, n):
+    """random put / get / has / remove / size sequences over a small key universe that contains a colliding chain"""
+    out = []
+    for i in range(n):
+        kt, vt = MAP_TYPES[i % 3]
+        chain, others = colliding(kt, rng.choice(['first', 'wrap']))
+        uni = chain + others + ([rng.randrange(-50, 500) for _ in range(4)] if kt == 'int' else [b'r%d' % rng.randrange(100) for _ in range(4)])
+        h = MapH(kt, vt)
+        for step in range(rng.randrange(25, 45)):
+            key = rng.choice(uni)
+            op = rng.choice(['put', 'put', 'put', 'remove', 'remove', 'get', 'has', 'size'])
+            if op == 'put':
+                h.put(key, rng.randrange(1000))
+            elif op == 'remove':
+                h.remove(key)
+            elif op == 'get':
+                h.get(key)
+            elif op == 'has':
+                h.has(key)
+            else:
+                h.size()
+        h.probe_all(uni)
+        h.keys(); h.values()
+        out.append(Hist('c03:history:HashMap<%s,%s>:random-%d' % (kt, vt, i), 'history:HashMap<%s,%s>' % (kt, vt), h.lines))
+    return out
+
+
+# open finding replayed as a witness (its trigger is kept out of the histories above)
+def witness_histories():
+    L = [('let mut a: array<int> = []', None), ('set a (array_push a 1)', None), ('set a (array_push a 2)', None), ('set a (array_push a 3)', None),
+         ('(array_set a 1 20)', None), ('(println a)', 'dynamic array after array_set 1 20')]
+    return [Hist('c03:history:array_set:no-effect-on-a-dynamic-array-in-the-evaluator', 'history:array<int>', L)]
+
+
+def history_program(cases):
+    return program(cases).replace('fn c0() -> int {', SUMI + 'fn c0() -> int {', 1)
+
+
+def first_difference(h, ct, nt):
+    a, b_ = ct.split(b'\n'), nt.split(b'\n')
+    for i in range(max(len(a), len(b_))):
+        x = a[i] if i < len(a) else None
+        y = b_[i] if i < len(b_) else None
+        if x != y:
+            return i, (h.ops[i] if i < len(h.ops) else '?'), x, y
+    return None
+
+
+def run_histories(ck, b):
+    hs = deterministic_histories() + random_histories(ck.rng, 36 if ck.thorough else 12) + witness_histories()
+    cnt = collections.Counter()
+    with langlib.Work('c03h') as wd:
+        r = Runner(b, wd, render=history_program)          # rendered with the helper sumi in front
+        res = sweep(r, hs, 16, lambda f, l: langlib.pmap(f, l, 16))
+        cnt['programs compiled'] = r.programs
+    for h, ct, nt, info in res:
+        ck.count(h.key, True)
+        cnt['histories'] += 1
+        cnt['observations'] += len(h.ops)
+        cnt[h.label] += 1
+        if ct is None or nt is None or ct is False or nt is False:
+            side = 'compile-time' if (ct is None or ct is False) else 'run-time'
+            ck.fail(h.key + ':no-%s-side' % side, 'history %s: no %s side (nanoc rc=%s, stderr tail %r)' % (h.key, side, info.get('rc'), info.get('stderr', '')[-200:]),
+                    dict(builtin_case=h.key, source=history_program([h]), stderr=info.get('stderr', '')[-600:]))
+            continue
+        if ct == nt:
+            cnt['agree'] += 1
+            continue
+        cnt['differ'] += 1
+        i, op, x, y = first_difference(h, ct, nt)
+        ck.fail(h.key, 'history on a container: observation %d (%s) prints %r at compile time, %r in the compiled program' % (i, op, x, y),
+                dict(builtin_case=h.key, history=h.body, first_difference=dict(line=i, operation=op, compile_time=repr(x), run_time=repr(y)),
+                     source=history_program([h]), compile_time=ct.decode('latin1')[:1500], run_time=nt.decode('latin1')[:1500]))
+    ck.extra['container_histories'] = dict(cnt)
+    ck.extra['container_history_chains'] = {('%s %s' % (kt, pick)): [repr(x) for x in colliding(kt, pick)[0]] for kt in ('int', 'str') for pick in ('first', 'wrap')}
+    return cnt
